@@ -529,12 +529,14 @@ class VM:
         elif op == OpCode.GT:
             b = self.stack.pop()
             a = self.stack.pop()
-            self.stack.append(self._compare(a, b) > 0)
+            # a > b is b < a, so that NaN (unordered) compares false
+            self.stack.append(self._compare(b, a) < 0)
 
         elif op == OpCode.GE:
             b = self.stack.pop()
             a = self.stack.pop()
-            self.stack.append(self._compare(a, b) >= 0)
+            # a >= b is b <= a, so that NaN (unordered) compares false
+            self.stack.append(self._compare(b, a) <= 0)
 
         elif op == OpCode.EQ:
             b = self.stack.pop()
